@@ -667,13 +667,15 @@ func (l *LanguageServer) StartConfigWorker(ctx context.Context) {
 				}
 			}()
 
-			l.lintWorkspaceJobs <- lintWorkspaceJob{Reason: "config file changed"}
+			// the cached aggregates were collected under the previous config (a
+			// different set of enabled rules), so they must be collected anew
+			l.lintWorkspaceJobs <- lintWorkspaceJob{Reason: "config file changed", OverwriteAggregates: true}
 		case <-l.configWatcher.Drop:
 			l.loadedConfigLock.Lock()
 			l.loadedConfig = nil
 			l.loadedConfigLock.Unlock()
 
-			l.lintWorkspaceJobs <- lintWorkspaceJob{Reason: "config file dropped"}
+			l.lintWorkspaceJobs <- lintWorkspaceJob{Reason: "config file dropped", OverwriteAggregates: true}
 		}
 	}
 }
